@@ -14,8 +14,10 @@ the model's scope and are counted, not replayed) this module
      latched and the delivered value and which program point must follow.  This reading is strict: every successful write of
      dq_state and ds_pending_data, every handler mark, every call mark after READY must be consumed by an action, otherwise the
      round is reported as not replayable (first unconsumed operation);
-  2. proposes a global order: the recorder's stamps made consistent with each thread's program order and with the exact
-     old -> new chains of dq_state and (ADD / OR) ds_pending_data;
+  2. proposes a global order (joint_order): a depth-first search, earliest stamp first, for a total order of all actions in
+     which every action sees the values it recorded of dq_state, ds_pending_data, the cancel flag, "installed" and leaves the
+     values it recorded; if the search gives up, the recorder's stamps made consistent with program order and with separately
+     built old -> new chains of the two words, in several variants (STRATEGIES);
   3. lets SrcLaneR.replay (Coq, vm_compute) execute the actions on SrcLane.begin / SrcLane.gstep (see Model/SrcLaneR.v): every
      action must be enabled in the model and produce the recorded values; the boolean invariant inv_b is evaluated on every
      state; the model must end with the recorded final words, all threads idle.
@@ -31,7 +33,6 @@ IMPORTS = ["Word", "Conc", "Gen_consts", "Gen_dqstate", "SrcData", "SrcLane", "S
 M64 = 1 << 64
 import os
 DEPTHS = [int(x) for x in os.environ.get('C15_DEPTHS', '24,96,400').split(',') if x]
-LATE_INSTALL = os.environ.get('C15_LATE', '1') == '1'
 PLACE_LOADS = os.environ.get('C15_PLACE', '0') == '1'
 SH = dict(Idle=0, POut=1, PM_flags=2, PM_op=3, PS_flags=4, PS_pend=5, PS_wake=6, PS_rootpush=7, PC_set=8, PU_rmw=9, PR_rmw=10,
           PR_flags=11, PR_pend=12, PR_wake=13, PW_lock=14, PW_susp=15, PW_flags=16, PW_pend=17, PW_latch=18, PW_call=19,
@@ -70,13 +71,15 @@ def word_after(e):
 
 class Act:
     """one model action: kind (0 step, 1..6 begins), a1, a2, prew, prev, shape, st after (-1: unchanged), pend after, chk, cv"""
-    __slots__ = ("tid", "k", "a1", "a2", "pw", "pv", "sh", "st", "pe", "ck", "cv", "anchor", "ev", "tag")
+    __slots__ = ("tid", "k", "a1", "a2", "pw", "pv", "sh", "st", "pe", "ck", "cv", "anchor", "ev", "tag", "si", "pi")
 
     def __init__(self, tid, k, sh, a1=0, a2=0, pw=0, pv=0, st=-1, pe=-1, ck=0, cv=0, ev=None):
         self.tid, self.k, self.a1, self.a2, self.pw, self.pv, self.sh, self.st, self.pe, self.ck, self.cv = \
             tid, k, a1, a2, pw, pv, SH[sh], st, pe, ck, cv
         self.ev = ev
         self.tag = None
+        self.si = -1
+        self.pi = -1
         self.anchor = float(ev.seq) if ev is not None else 0.0
 
 
@@ -547,7 +550,161 @@ def chain(events, start, old_of, new_of, thr_of, seq_of, limit=200000):
     return order, cur
 
 
-def build_round(rd, info, thr_ev, C, place=False):
+JOINT_TRIES = [(40, 60000), (400, 60000), (None, 100000)]
+
+
+def joint_order(acts_by, st0, early, limit=300000, horizon=None):
+    """a total order of all actions of a round that is consistent, at the level of the recorded values, with both words at once:
+    every action sees the value it recorded (dq_state, ds_pending_data, the cancel flag, installed or not, a non-empty target
+    queue for a worker) and leaves what it recorded.  Depth-first over the actions that change something, the earliest stamp
+    first; actions that change nothing are taken as soon as they are possible (they never disable anything).  Untrusted: the
+    order is only a proposal for SrcLaneR.replay.  Returns the list of actions or None."""
+    qs = [q for _, q in sorted(acts_by.items(), key=lambda kv: kv[1][0].tid)]
+    n = len(qs)
+    total = sum(len(q) for q in qs)
+    pos = [0] * n
+    state = (st0, 0, False, False, 0)          # dq_state, ds_pending_data, installed, cancelled, rootq
+    out = []
+
+    def after(state, q, p):
+        """state after q[p], or None when q[p] does not see what it recorded"""
+        st, pe, inst, canc, rq = state
+        a = q[p]
+        if a.pw == 1:
+            if pe != a.pv:
+                return None
+        elif a.pw == 2:
+            if st != a.pv:
+                return None
+        elif a.pw == 3:
+            if canc != (a.pv != 0):
+                return None
+        if a.tag == "U" and inst:
+            return None
+        if a.tag == "I" and not inst:
+            return None
+        if a.k == 2:
+            if rq <= 0:
+                return None
+            rq -= 1
+        if a.st != -1:
+            st = a.st
+        if a.pe != -1:
+            pe = a.pe
+        if a.tag == "XW" or (a.tag == "XA" and early):
+            inst = True
+        if a.k == 0 and p > 0:
+            psh = q[p - 1].sh
+            if psh == SH["PS_rootpush"]:
+                rq += 1
+            elif psh == SH["PC_set"]:
+                canc = True
+        return (st, pe, inst, canc, rq)
+
+    # remaining observers / producers of every value of the two words: overwriting a value that somebody still has to see and
+    # nobody can produce again cannot lead to a complete order (sound pruning)
+    from collections import Counter
+    need = {1: Counter(), 2: Counter()}
+    prod = {1: Counter(), 2: Counter()}
+    for q in qs:
+        for a in q:
+            if a.pw in (1, 2):
+                need[a.pw][a.pv] += 1
+            if a.pe != -1:
+                prod[1][a.pe] += 1
+            if a.st != -1:
+                prod[2][a.st] += 1
+
+    def count(a, d):
+        if a.pw in (1, 2):
+            need[a.pw][a.pv] += d
+        if a.pe != -1:
+            prod[1][a.pe] += d
+        if a.st != -1:
+            prod[2][a.st] += d
+
+    def closure():
+        nonlocal state
+        again = True
+        while again:
+            again = False
+            for i in range(n):
+                q = qs[i]
+                while pos[i] < len(q):
+                    a = q[pos[i]]
+                    # only what can never change a word is taken eagerly (a blind store of the value that happens to be there is not)
+                    if not ((a.st == -1 or (a.pw == 2 and a.pv == a.st)) and (a.pe == -1 or (a.pw == 1 and a.pv == a.pe))):
+                        break
+                    s2 = after(state, q, pos[i])
+                    if s2 is None or s2 != state:
+                        break
+                    out.append(q[pos[i]])
+                    count(q[pos[i]], -1)
+                    pos[i] += 1
+                    again = True
+
+    def cands():
+        c = []
+        first = None
+        for i in range(n):
+            if pos[i] < len(qs[i]):
+                an = qs[i][pos[i]].anchor
+                if first is None or an < first:
+                    first = an
+                s2 = after(state, qs[i], pos[i])
+                if s2 is not None:
+                    c.append((an, i, s2))
+        if horizon is not None:
+            # stamps are taken right after the operations: an action far later than the earliest waiting one is not tried yet
+            c = [x for x in c if x[0] <= first + horizon]
+        c.sort(key=lambda x: (x[0], x[1]))
+        return c
+
+    dead = set()
+    stack = []
+    nodes = 0
+    lost = False
+    closure()
+    while True:
+        if len(out) == total:
+            return out
+        key = (tuple(pos), state)
+        cs = [] if (lost or key in dead) else cands()
+        nodes += 1
+        if nodes > limit:
+            return None
+        if cs:
+            stack.append((list(pos), state, len(out), cs, 0, key))
+        else:
+            dead.add(key)
+            # backtrack to the latest choice point that has an untried candidate
+            while stack:
+                spos, sstate, slen, scs, sk, skey = stack.pop()
+                if sk + 1 < len(scs):
+                    stack.append((spos, sstate, slen, scs, sk + 1, skey))
+                    break
+                dead.add(skey)
+            else:
+                return None
+        spos, sstate, slen, scs, sk, skey = stack[-1]
+        pos[:] = spos
+        state = sstate
+        for a in out[slen:]:
+            count(a, 1)
+        del out[slen:]
+        _, i, s2 = scs[sk]
+        a = qs[i][pos[i]]
+        out.append(a)
+        count(a, -1)
+        pos[i] += 1
+        lost = ((s2[0] != state[0] and need[2][state[0]] > 0 and prod[2][state[0]] == 0) or
+                (s2[1] != state[1] and need[1][state[1]] > 0 and prod[1][state[1]] == 0))
+        state = s2
+        if not lost:
+            closure()
+
+
+def build_round(rd, info, thr_ev, C, place=False, pin=(True, True), pref=0, joint=False):
     """returns dict(queues, order, st0, final_st, final_pend, nacts) or raises Unsupported"""
     # the replay starts where the recording starts: the source as created (inactive, not installed, handler set), at rest
     first = None
@@ -572,6 +729,25 @@ def build_round(rd, info, thr_ev, C, place=False):
     tids = [a[0].tid for a in acts_by.values()]
     if len(set(tids)) != len(tids):
         raise Unsupported("two recorded threads with the same lock value")
+    if joint:
+        seq = None
+        for hz, lim in JOINT_TRIES:
+            seq = joint_order(acts_by, st0, info["target"] in (2, 3), limit=lim, horizon=hz)
+            if seq is not None:
+                break
+        if seq is None:
+            raise Unsupported("no order of the recorded actions is consistent with the recorded values of both words")
+        ks = kp = 0
+        stv, pev = st0, 0
+        for k_, a_ in enumerate(seq):
+            a_.anchor = float(k_)
+            if a_.st != -1:
+                a_.si, ks, stv = ks, ks + 1, a_.st
+            if a_.pe != -1:
+                a_.pi, kp, pev = kp, kp + 1, a_.pe
+        queues = {acts[0].tid: acts for acts in acts_by.values()}
+        return dict(queues=queues, order=[a.tid for a in seq], st0=st0, final_st=stv, final_pend=pev if info["kind"] != 2 else None,
+                    nacts=len(seq))
     # exact chains of the words
     stw = [a for a in allacts if a.st != -1]
     order_st, fin_st = chain(stw, st0, lambda a: a.pv, lambda a: a.st, lambda a: a.tid, lambda a: a.anchor)
@@ -579,13 +755,21 @@ def build_round(rd, info, thr_ev, C, place=False):
         raise Unsupported("the dq_state writes do not form a chain from the READY word")
     chains = [order_st]
     pairs = []
+    if pin[0]:
+        for k_, a_ in enumerate(order_st):
+            a_.si = k_
     pew = [a for a in allacts if a.pe != -1]
     fin_pe = None
     if info["kind"] != 2:
-        order_pe, fin_pe = chain(pew, 0, lambda a: a.pv, lambda a: a.pe, lambda a: a.tid, lambda a: a.anchor)
+        # where the value chain is ambiguous (the same value recurs), the exchange of a drain pass is tried last (pref 1) or first (2)
+        keyf = (lambda a: a.anchor) if pref == 0 else (lambda a: ((a.pe == 0 and a.pv != 0) == (pref == 1), a.anchor))
+        order_pe, fin_pe = chain(pew, 0, lambda a: a.pv, lambda a: a.pe, lambda a: a.tid, keyf)
         if order_pe is None:
             raise Unsupported("the ds_pending_data operations do not form a chain from 0")
         chains.append(order_pe)
+        if pin[1]:
+            for k_, a_ in enumerate(order_pe):
+                a_.pi = k_
     else:
         # REPLACE: stores are blind (no old value).  An observation (load, exchange) of v <> 0, v stored exactly once, follows
         # the store of v with no other write of ds_pending_data in between.
@@ -696,8 +880,8 @@ def coq_replay(name, jobs, window=16, timeout=900, workers=4, chunk_actions=6000
             qs = []
             for tid, q in queues.items():
                 qs.append("(%s, [%s])" % (z(tid), "; ".join(
-                    "A %s (MA %s %s %s %s %s %s %s %s %s %s)" % (z(tid), z(a.k), z(a.a1), z(a.a2), z(a.pw), z(a.pv), z(a.sh), z(a.st), z(a.pe),
-                                                              z(a.ck), z(a.cv)) for a in q)))
+                    "A %s (MA %s %s %s %s %s %s %s %s %s %s %s %s)" % (z(tid), z(a.k), z(a.a1), z(a.a2), z(a.pw), z(a.pv), z(a.sh), z(a.st),
+                                                                    z(a.pe), z(a.ck), z(a.cv), z(a.si), z(a.pi)) for a in q)))
             defs.append("Definition qs%d : list (Z * list sact) := [%s]." % (k, ";\n".join(qs)))
             defs.append("Definition ord%d : list Z := [%s]." % (k, "; ".join(z(t) for t in order)))
             kn = ["SrcData.KindAdd", "SrcData.KindOr", "SrcData.KindReplace"][kind]
@@ -741,7 +925,10 @@ def replay_text(text, label, C):
         if info["racing"]:
             stats["rounds_with_merges_racing_the_activation"] += 1
         try:
-            b = build_round(rd, info, byround.get(rd, {}), C)
+            try:
+                b = build_round(rd, info, byround.get(rd, {}), C, joint=True)
+            except Unsupported:
+                b = build_round(rd, info, byround.get(rd, {}), C)
         except Unsupported as ex:
             mism.append({"what": "a recorded round cannot be read as SrcLane actions: " + str(ex),
                          "detail": {"label": label, "round": rd, "kind": info["kind"], "target": info["target"]}})
@@ -756,12 +943,21 @@ def judge(meta, results, C):
     mism, nrep = [], 0
     for m, r in zip(meta, results):
         b = m["b"]
-        done, left, stv, pe, rootq, idle, ok, tok, canc, ncalls, nmerged, stuck, stuck_sh, stuck_left = r
+        done, left, stv, pe, rootq, idle, ok, tok, canc, ncalls, nmerged, stuck, stuck_sh, stuck_left = r[:14]
         why = []
         if left != 0:
             q = b["queues"].get(stuck, [])
             pos = len(q) - stuck_left
             a = q[pos] if 0 <= pos < len(q) else None
+            others = []
+            for k in range(14, len(r) - 2, 3):
+                t_, l_, sh_ = r[k], r[k + 1], r[k + 2]
+                qq = b["queues"].get(t_, [])
+                a_ = qq[len(qq) - l_] if 0 < l_ <= len(qq) else None
+                if a_ is not None and t_ != stuck:
+                    others.append("thread %d at shape %d waits for (kind %d, pre %d=%s, shape %d, st->%s, pend->%s)" % (
+                        t_, sh_, a_.k, a_.pw, a_.pv, a_.sh, a_.st, a_.pe))
+            m["others"] = others
             why.append("%d of %d actions replayed; first action that is not enabled with the recorded outcome: thread %d, action #%d "
                        "(kind %s, expects shape %s, pre %s=%s, st->%s, pend->%s) recorded as %s; the model thread is at shape %d, dq_state=%#x, "
                        "ds_pending_data=%d" % (
@@ -778,14 +974,22 @@ def judge(meta, results, C):
             why.append("the boolean invariant inv_b is false on a replayed state (or the READY word is not an admissible start)")
         if why:
             mism.append({"what": "global replay on SrcLane.gstep failed: " + "; ".join(why),
-                         "detail": {"label": m["label"], "round": m["round"], "kind": m["info"]["kind"], "target": m["info"]["target"]}})
+                         "detail": {"label": m["label"], "round": m["round"], "kind": m["info"]["kind"], "target": m["info"]["target"],
+                                    "other_threads": m.get("others", [])[:12]}})
         else:
             nrep += 1
     return mism, nrep
 
 
-STRATEGIES = [dict(depths=[8, 24, 96, 400], place=False, window=16), dict(depths=[24, 96, 400], place=True, window=16),
-              dict(depths=[], place=False, window=16), dict(depths=[4, 16, 64, 400], place=True, window=6)]
+STRATEGIES = [dict(depths=[24, 96, 400], place=False, window=16, pin=(True, True)),
+              dict(depths=[24, 96, 400], place=False, window=16, pin=(True, True), pref=1),
+              dict(depths=[24, 96, 400], place=False, window=16, pin=(True, True), pref=2),
+              dict(depths=[24, 96, 400], place=False, window=16, pin=(True, False)),
+              dict(depths=[24, 96, 400], place=False, window=16, pin=(False, False)),
+              dict(depths=[8, 24, 96, 400], place=False, window=16, pin=(False, True)),
+              dict(depths=[24, 96, 400], place=True, window=16, pin=(False, False)),
+              dict(depths=[], place=False, window=16, pin=(True, True)),
+              dict(depths=[4, 16, 64, 400], place=True, window=6, pin=(True, False))]
 
 
 def replay_all(name, jobs, meta, C):
@@ -801,7 +1005,7 @@ def replay_all(name, jobs, meta, C):
         for k in bad:
             m = meta[k]
             try:
-                b = build_round(m["round"], m["info"], m["thr_ev"], C, place=st["place"])
+                b = build_round(m["round"], m["info"], m["thr_ev"], C, place=st["place"], pin=st["pin"], pref=st.get("pref", 0), joint=st.get("joint", False))
             except Unsupported:
                 continue
             info = m["info"]
